@@ -32,6 +32,14 @@
 //	              (`package p_test`), without derive calls, with derive calls, together with in-package test
 //	              files; must end with exit 0 and a package that still type-checks (derived.gen.go present,
 //	              belonging to the package proper) or with a message
+//	diagnostics   one call per refusal of a plugin's Add / Generate that the generic streams do not provoke (found
+//	              by statement coverage of goderive under all checks): fmap / join / compose / do / traverse shape
+//	              checks in their slice, string, chan, error and tuple forms, predicates that do not return bool,
+//	              maps that are not sets for union / intersect, curried equal / compare of unsupported types,
+//	              custom error types and methods of the wrong shape (Equal, Compare, Hash, DeepCopy, Error),
+//	              interface-typed fields with Equal / Compare, private fields of external structs, command-line
+//	              errors (-pluginprefix without '=', .go files mixed with packages, arguments after --), and
+//	              I/O failures (derived.gen.go being a directory)
 //	nonascii      well-typed, supported: type names of 1-3 non-ASCII letters (2-, 3- and 4-byte letters), the
 //	              same type name in two or three imported packages, with helper requests (or user functions)
 //	              that already took prefix, prefix_ and every letter prefix of the name, so that the fresh-name
@@ -88,6 +96,8 @@ type caseT struct {
 	Names   []string `json:"names"`   // a diagnostic should contain one of these (call name, type text)
 	Unsupp  bool     `json:"unsupp"`  // the argument type is outside the plugin's documented set
 	UserBad bool     `json:"userbad"` // the user's own files do not parse / type-check
+	PreArgs  []string `json:"preargs"`  // goderive arguments before the package path
+	PostArgs []string `json:"postargs"` // … and after it (PKGDIR is replaced by the case directory)
 	Tag     string   `json:"tag"`     // sub-class used in the violation class id (cause rather than plugin)
 	MustOK  bool     `json:"mustok"`  // well-typed and inside the supported grammar: exit 0, parses, type-checks
 	Files   []string `json:"files"`
@@ -214,6 +224,16 @@ var positions = []posT{
 	}},
 	{"unnamedstructfield", false, func(x string) (string, string) { return "struct {\n\tA int\n\tF " + x + "\n}", "" }},
 	{"named", false, func(x string) (string, string) { return "N", "type N " + x + "\n" }},
+	{"namedstructvalue", false, func(x string) (string, string) { return "N", "type N struct {\n\tA int\n\tF " + x + "\n}\n" }},
+	{"ptrunnamedstruct", false, func(x string) (string, string) { return "*struct {\n\tA int\n\tF " + x + "\n}", "" }},
+	{"sliceofnamedstruct", false, func(x string) (string, string) { return "[]N", "type N struct {\n\tF " + x + "\n}\n" }},
+	{"mapofnamedstruct", false, func(x string) (string, string) { return "map[string]N", "type N struct {\n\tF " + x + "\n}\n" }},
+	{"arrayofptrstruct", false, func(x string) (string, string) { return "[2]*N", "type N struct {\n\tF " + x + "\n}\n" }},
+	{"mapvaluearray", false, func(x string) (string, string) { return "map[string][2]" + x, "" }},
+	{"mapvaluearrayofstruct", false, func(x string) (string, string) { return "map[string][2]N", "type N struct {\n\tF " + x + "\n}\n" }},
+	{"embeddedstruct", false, func(x string) (string, string) {
+		return "*N", "type N struct {\n\tInner\n\tA int\n}\n\ntype Inner struct {\n\tF " + x + "\n}\n"
+	}},
 }
 
 func header(pkg string, needUnsafe bool) string {
@@ -259,6 +279,7 @@ func genUnsupported(r *rand.Rand, prefixes map[string]string) {
 				}
 			}
 			for qi, q := range positions {
+				chosen[key{pi, 0, qi}] = true // chan int is rejected by every plugin: every (plugin, position) refusal path is taken
 				for {
 					bi := r.Intn(len(bads))
 					if q.needCmp && !bads[bi].comparable {
@@ -615,13 +636,19 @@ func genUnresolved(prefixes map[string]string) {
 		"var a, b *map[ID][]int\n\nfunc Use() bool { return deriveEqual(a, b) }\n",
 		"var a []map[ID]int\n\nfunc Use() uint64 { return deriveHash(a) }\n",
 		"type T struct {\n\tM map[ID]int\n}\n\nfunc Use(a, b *T) bool { return deriveEqual(a, b) }\n",
+		"import \"fmt\"\n\nvar _ = fmt.Sprint\n\nfunc Use() bool { return deriveEqual(fmt, fmt) }\n",
+		"func Use() bool { return deriveEqual(_, _) }\n",
+		"func mk() (ID, error) { return nil, nil }\n\nfunc Use() { deriveJoin(mk()) }\n",
+		"func mk() (func() (ID, error), error) { return nil, nil }\n\nfunc Use() { deriveJoin(mk()) }\n",
+		"func mk() (int, ID) { return 0, nil }\n\nfunc Use() { deriveTuple(mk()) }\n",
+		"func Use() uint64 { return deriveHash(int) }\n",
 	} {
 		tag := ""
 		if strings.HasPrefix(body, "type T struct") {
 			tag = "unresolved-inside-named-type"
 		}
 		add(caseT{Family: "unresolved", What: fmt.Sprintf("package-level variable / flow %d", i), Call: "deriveKeys",
-			Names: []string{"deriveKeys", "deriveSort", "deriveEqual", "deriveHash", "ID"}, UserBad: true, Tag: tag},
+			Names: []string{"deriveKeys", "deriveSort", "deriveEqual", "deriveHash", "deriveJoin", "deriveTuple", "ID"}, UserBad: true, Tag: tag},
 			map[string]string{"u.go": "package PKGDIR\n\n" + body})
 	}
 }
@@ -723,6 +750,319 @@ func genNilArgs(prefixes map[string]string) {
 			}
 		}
 		emit("one more argument, untyped nil", append(append([]string{}, row.args...), "nil"))
+	}
+}
+
+// ---------------------------------------------------------------- family: diagnostics
+
+func genDiagnostics(prefixes map[string]string) {
+	common := `func fis(i int) string { return "" }
+func f2(a, b int) string { return "" }
+func fss(s string) string { return s }
+func f22(i int) (int, int) { return i, i }
+func frune2(r rune) (int, int) { return 0, 0 }
+func ferr() (string, error) { return "", nil }
+func fnoterr() (string, int) { return "", 0 }
+func fint() (int, error) { return 0, nil }
+func predInt(i int) int { return i }
+func tupleBad() (int, error) { return 0, nil }
+func tupleGood() (func() (string, error), error) { return ferr, nil }
+func stage1(a int) (string, int, error) { return "", 0, nil }
+func stage2(s string) (float64, error) { return 0, nil }
+func trav(i int) (string, int) { return "", 0 }
+
+var (
+	xs   []int
+	strs []string
+	ci   chan int
+	cs   chan string
+	cci  chan chan int
+	sci  []chan int
+	e    error
+)
+`
+	tag := ""
+	d := func(plugin, what, call string, extraDecls string, names ...string) {
+		fn := prefixes[plugin] + "Diag"
+		src := "package PKGDIR\n\n" + common + extraDecls + "\nfunc Use() {\n\t" + strings.ReplaceAll(call, "FN", fn) + "\n}\n"
+		add(caseT{Family: "diagnostics", Plugin: plugin, What: what, Call: fn, Names: append([]string{fn}, names...), Unsupp: true, Tag: tag},
+			map[string]string{"u.go": src})
+	}
+	// fmap
+	d("fmap", "error form: second result of the second argument is not an error", "FN(fis, fnoterr)", "")
+	d("fmap", "error form: first argument is not a function", "FN(5, ferr)", "")
+	d("fmap", "error form: first argument takes two parameters", "FN(f2, fint)", "")
+	d("fmap", "error form: input type differs from the result type of the second argument", "FN(fis, ferr)", "")
+	d("fmap", "error form: valid", "FN(fss, ferr)", "")
+	d("fmap", "string form: first argument is not a function", "FN(5, \"s\")", "")
+	d("fmap", "string form: first argument takes two parameters", "FN(f2, \"s\")", "")
+	d("fmap", "string form: two results", "FN(frune2, \"s\")", "")
+	d("fmap", "string form: not a string constant", "FN(fis, 5)", "")
+	d("fmap", "chan form: first argument is not a function", "FN(5, ci)", "")
+	d("fmap", "chan form: first argument takes two parameters", "FN(f2, ci)", "")
+	d("fmap", "chan form: input type differs from the element type", "FN(fss, ci)", "")
+	d("fmap", "chan form: two results", "FN(f22, ci)", "")
+	d("fmap", "slice form: two results", "FN(f22, xs)", "")
+	// join
+	d("join", "tuple form: first component is not a function", "FN(tupleBad())", "")
+	d("join", "tuple form: valid", "FN(tupleGood())", "")
+	d("join", "error form: second argument is not an error", "FN(ferr, 5)", "")
+	d("join", "error form: function has parameters", "FN(func(a int) (int, error) { return a, nil }, e)", "")
+	d("join", "error form: function has no results", "FN(func() {}, e)", "")
+	d("join", "error form: last result is not an error", "FN(fnoterr, e)", "")
+	d("join", "error form: valid", "FN(ferr, e)", "")
+	d("join", "slice of ints (neither slices nor strings)", "FN(xs)", "")
+	d("join", "slice of strings and a second argument", "FN(strs, 1)", "")
+	d("join", "chan of chan and a second argument", "FN(cci, 1)", "")
+	d("join", "chan and a non-chan", "FN(ci, 5)", "")
+	d("join", "chans of different element types", "FN(ci, cs)", "")
+	d("join", "a single chan", "FN(ci)", "")
+	d("join", "slice of chan and a second argument", "FN(sci, 1)", "")
+	d("join", "slice of slices and a second argument", "FN([][]int{}, 1)", "")
+	// predicates
+	for _, pl := range []string{"all", "any", "filter", "takewhile"} {
+		d(pl, "predicate returns int", "FN(predInt, xs)", "")
+		d(pl, "predicate returns two values", "FN(f22, xs)", "")
+	}
+	// compose / do / traverse
+	d("compose", "result and parameter counts of consecutive stages differ", "FN(stage1, stage2)", "")
+	d("compose", "result type not assignable to the next parameter", "FN(fint2, stage2)", "func fint2(a int) (int, error) { return a, nil }\n")
+	d("compose", "first stage is not a function", "FN(5, stage2)", "", "untyped int")
+	d("do", "second result is not an error", "FN(fnoterr, fint)", "")
+	d("do", "three results", "FN(func() (int, int, error) { return 0, 0, nil }, fint)", "")
+	d("traverse", "second result of the function is not an error", "FN(trav, xs)", "")
+	d("traverse", "second argument is a string", "FN(fis, \"s\")", "", "untyped string")
+	d("traverse", "one result only", "FN(fis, xs)", "")
+	// set-like plugins
+	for _, pl := range []string{"union", "intersect"} {
+		d(pl, "map whose value type is not struct{}", "FN(map[int]bool{}, map[int]bool{})", "")
+		d(pl, "two ints", "FN(1, 2)", "")
+		d(pl, "two chans", "FN(ci, ci)", "")
+		d(pl, "map set (valid)", "FN(map[int]struct{}{}, map[int]struct{}{})", "")
+		d(pl, "different types", "FN(xs, strs)", "")
+	}
+	for _, pl := range []string{"min", "max"} {
+		d(pl, "second argument not assignable to the element type", "FN(xs, \"s\")", "")
+		d(pl, "first argument is not a slice", "FN(5, \"s\")", "")
+		d(pl, "two values (valid)", "FN(1, 2)", "")
+	}
+	d("uncurry", "the returned function is variadic", "FN(func(a int) func(b ...string) bool { return nil })", "")
+	d("uncurry", "the outer function is variadic", "FN(func(a ...int) func(b string) bool { return nil })", "")
+	d("uncurry", "does not return a function", "FN(fis)", "")
+	d("uncurry", "two results", "FN(f22)", "")
+	// curried forms of equal / compare on unsupported types
+	d("equal", "curried form, chan argument", "FN(ci)", "", "chan int", "types.Chan")
+	d("equal", "curried form, func argument", "FN(fis)", "", "func(", "types.Signature")
+	d("compare", "curried form, chan argument", "FN(ci)", "", "chan int")
+	d("compare", "curried form, struct with a func field", "FN(struct{ F func() }{})", "", "struct{F func()}", "func()")
+	// custom error types (derive.IsError walks the method set)
+	errTypes := `type E1 struct{}
+
+func (E1) Error() string { return "" }
+
+type E2 struct{}
+
+func (E2) Error(x int) string { return "" }
+
+type E3 struct{}
+
+func (E3) Error() (string, int) { return "", 0 }
+
+type E4 struct{}
+
+func (E4) Error() []byte { return nil }
+
+type E5 struct{}
+
+func (E5) Error() int { return 0 }
+
+type E6 struct{}
+
+func (E6) Other() string { return "" }
+
+func (E6) Error2() string { return "" }
+`
+	tag = "custom-error-type"
+	for i := 1; i <= 6; i++ {
+		d("do", fmt.Sprintf("second result is the custom type E%d", i), fmt.Sprintf("FN(func() (int, E%d) { return 0, E%d{} }, fint)", i, i), errTypes, fmt.Sprintf("E%d", i))
+		d("compose", fmt.Sprintf("last result is the custom type E%d", i), fmt.Sprintf("FN(func(a int) (string, E%d) { return \"\", E%d{} }, stage2)", i, i), errTypes, fmt.Sprintf("E%d", i))
+	}
+	tag = ""
+	// methods of the wrong shape where equal / compare / hash / deepcopy look for a user method
+	odd := `type O1 struct{ A []int }
+
+func (o *O1) Equal() bool              { return true }
+func (o *O1) Compare() int             { return 0 }
+func (o *O1) Hash(seed int) uint64     { return 0 }
+func (o *O1) DeepCopy()                {}
+
+type O2 struct{ A []int }
+
+func (o *O2) Equal(p *O2) (bool, int)  { return true, 0 }
+func (o *O2) Compare(p *O2) (int, int) { return 0, 0 }
+func (o *O2) Hash() (uint64, int)      { return 0, 0 }
+func (o *O2) DeepCopy(p *O2) int       { return 0 }
+
+type O3 struct{ A []int }
+
+func (o *O3) Equal(p *O3) int          { return 0 }
+func (o *O3) Compare(p *O3) string     { return "" }
+func (o *O3) Hash() string             { return "" }
+func (o *O3) DeepCopy(p, q *O3)        {}
+
+type O4 struct{ A []int }
+
+func (o *O4) Equal(p *O4) []bool       { return nil }
+func (o *O4) Compare(p *O4) []int      { return nil }
+func (o *O4) Hash() []uint64           { return nil }
+
+type O5 struct{ A []int }
+
+func (o *O5) Equal(p *O5) bool         { return true }
+func (o *O5) Compare(p *O5) int        { return 0 }
+func (o *O5) Hash() uint64             { return 0 }
+func (o *O5) DeepCopy(p *O5)           {}
+
+type DS []O5
+
+func (d DS) DeepCopy(to DS) {}
+
+type DM map[string]O5
+
+func (d DM) DeepCopy(to DM) {}
+
+type AliasO5 = O5
+
+type F32 float32
+
+type IE interface{ Equal(IE) bool }
+
+type IC interface{ Compare(IC) int }
+
+type W struct {
+	A  *O1
+	B  *O2
+	C  *O3
+	D  *O4
+	E  *O5
+	V  O5
+	S  DS
+	M  DM
+	F  F32
+	FS []F32
+}
+
+type O6 struct{ A []int }
+
+func (o *O6) Equal(x interface{}) bool  { return true }
+func (o *O6) Compare(x interface{}) int { return 0 }
+
+type O7 struct{ A []int }
+
+func (o O7) Equal(x interface{}) bool  { return true }
+func (o O7) Compare(x interface{}) int { return 0 }
+
+type WO struct {
+	V  O6
+	P  *O6
+	S  []O6
+	V7 O7
+	P7 *O7
+}
+
+type WA struct {
+	AL *AliasO5
+	V  AliasO5
+}
+
+type WP struct {
+	PS *DS
+	PM *DM
+	SP []*DS
+}
+
+type WI struct {
+	I  IE
+	PI *IE
+	SI []IE
+}
+
+type WC struct {
+	I  IC
+	SI []IC
+}
+`
+	for _, pl := range []string{"equal", "compare", "hash", "deepcopy", "clone", "gostring"} {
+		tp := pluginByName(pl)
+		fn := prefixes[pl] + "Diag"
+		params, body := tp.call(fn)
+		src := "package PKGDIR\n\n" + odd + "\nfunc Use(" + params("*W") + ") {\n\t" + body + "\n}\n"
+		add(caseT{Family: "diagnostics", Plugin: pl, What: "fields whose types declare Equal / Compare / Hash / DeepCopy methods of the right and of wrong shapes, named float32, alias", Call: fn,
+			Names: []string{fn, "O1", "O2", "O3", "O4", "W"}, Unsupp: true}, map[string]string{"u.go": src})
+	}
+	for _, pl := range []string{"equal", "compare", "hash", "deepcopy", "clone", "gostring"} {
+		for _, v := range []struct{ typ, what, tag string }{
+			{"*WA", "fields of an alias of a named struct type", ""},
+			{"*WP", "pointers to named slice / map types that declare DeepCopy", "user-method-behind-pointer"},
+			{"*WO", "Equal / Compare methods whose parameter is an interface", ""},
+			{"*AliasO5", "pointer to an alias of a named struct, top level", ""},
+			{"*O5", "pointer to a type with all four user methods, top level", ""},
+		} {
+			tp := pluginByName(pl)
+			fn := prefixes[pl] + "Diag"
+			params, body := tp.call(fn)
+			src := "package PKGDIR\n\n" + odd + "\nfunc Use(" + params(v.typ) + ") {\n\t" + body + "\n}\n"
+			add(caseT{Family: "diagnostics", Plugin: pl, What: v.what + ": " + v.typ, Call: fn, Names: []string{fn, "AliasO5", "O5", "DS", "DM", "WA", "WP"}, Unsupp: true, Tag: v.tag},
+				map[string]string{"u.go": src})
+		}
+	}
+	for _, v := range []struct{ pl, typ string }{{"equal", "*WI"}, {"compare", "*WC"}, {"equal", "IE"}, {"compare", "IC"}} {
+		tp := pluginByName(v.pl)
+		fn := prefixes[v.pl] + "Diag"
+		params, body := tp.call(fn)
+		src := "package PKGDIR\n\n" + odd + "\nfunc Use(" + params(v.typ) + ") {\n\t" + body + "\n}\n"
+		add(caseT{Family: "diagnostics", Plugin: v.pl, What: "interface-typed components that declare the method: " + v.typ, Call: fn,
+			Names: []string{fn, "IE", "IC", "WI", "WC", "interface"}, Unsupp: true}, map[string]string{"u.go": src})
+	}
+	// unnamed struct with an embedded field (FieldStrings), private fields of an external struct (gostring)
+	for _, pl := range []string{"equal", "hash", "compare"} {
+		tp := pluginByName(pl)
+		fn := prefixes[pl] + "Diag"
+		params, body := tp.call(fn)
+		src := "package PKGDIR\n\ntype T struct{ A []int }\n\nfunc Use(" + params("struct {\n\tT\n\tX int\n}") + ") {\n\t" + body + "\n}\n"
+		add(caseT{Family: "diagnostics", Plugin: pl, What: "unnamed struct with an embedded field", Call: fn, Names: []string{fn, "struct"}, Unsupp: true}, map[string]string{"u.go": src})
+	}
+	for _, pl := range []string{"gostring", "equal", "hash", "deepcopy", "clone", "compare"} {
+		tp := pluginByName(pl)
+		fn := prefixes[pl] + "Diag"
+		params, body := tp.call(fn)
+		src := "package PKGDIR\n\nimport ext \"bad/PKGDIR/ext\"\n\nfunc Use(" + params("*ext.T") + ") {\n\t" + body + "\n}\n"
+		add(caseT{Family: "diagnostics", Plugin: pl, What: "external struct with a private field", Call: fn, Names: []string{fn, "private", "ext.T", "hidden"}, Unsupp: true},
+			map[string]string{"u.go": src, "ext/ext.go": "package ext\n\ntype T struct {\n\tPub int\n\thidden []string\n}\n"})
+	}
+	// the command line
+	okPkg := "package PKGDIR\n\nfunc Eq(a, b []int) bool { return deriveEqual(a, b) }\n"
+	cl := func(what string, pre, post []string, names ...string) {
+		add(caseT{Family: "diagnostics", What: what, Call: "deriveEqual", Names: names, Unsupp: true, PreArgs: pre, PostArgs: post}, map[string]string{"u.go": okPkg})
+	}
+	cl("-pluginprefix pair without '='", []string{"-pluginprefix=equal"}, nil, "plugin prefix", "equal")
+	cl("-pluginprefix with an empty pair", []string{"-pluginprefix=equal=eq,,hash=h"}, nil, "plugin prefix")
+	cl("-pluginprefix with two '='", []string{"-pluginprefix=equal=a=b"}, nil, "plugin prefix", "equal=a=b")
+	cl("-pluginprefix for an unknown plugin", []string{"-pluginprefix=nosuchplugin=x"}, nil, "nosuchplugin", "deriveEqual")
+	cl("unknown flag", []string{"-nosuchflag"}, nil, "nosuchflag", "flag")
+	cl(".go file and a package path mixed", []string{"./PKGDIR/u.go"}, nil, ".go", "arguments")
+	cl("arguments after --", nil, []string{"--", "extra", "words"}, "extra", "arguments")
+	cl("-prefix that is not an identifier", []string{"-prefix=de-rive"}, nil, "deriveEqual", "de-rive")
+	cl("-prefix empty", []string{"-prefix="}, nil, "deriveEqual", "prefix")
+	// I/O failures
+	add(caseT{Family: "diagnostics", What: "derived.gen.go is a non-empty directory, content to write", Call: "deriveEqual", Names: []string{"derived.gen.go", "directory"}, Unsupp: true},
+		map[string]string{"u.go": okPkg, "derived.gen.go/keep.txt": "x\n"})
+	add(caseT{Family: "diagnostics", What: "derived.gen.go is a non-empty directory, nothing to write", Call: "deriveEqual", Names: []string{"derived.gen.go", "directory"}, Unsupp: true},
+		map[string]string{"u.go": "package PKGDIR\n\nfunc X() int { return 1 }\n", "derived.gen.go/keep.txt": "x\n"})
+	// a derived.gen.go the parser gives up on
+	for i, g := range []string{"", "\x00", "package", "// only a comment\n", "packag PKGDIR\n", "package PKGDIR; func (", "package 5\n", strings.Repeat("{", 3000)} {
+		add(caseT{Family: "broken", What: fmt.Sprintf("derived.gen.go the parser cannot use (%d)", i), Call: "deriveEqual", Names: []string{"deriveEqual", "derived.gen.go"}},
+			map[string]string{"u.go": okPkg, "derived.gen.go": g})
 	}
 }
 
@@ -918,6 +1258,7 @@ func main() {
 	genBroken()
 	genAliasClash()
 	genUnresolved(prefixes)
+	genDiagnostics(prefixes)
 	genXTest()
 	genBlankFields(prefixes)
 	genSelfPointer(prefixes)
